@@ -28,6 +28,7 @@
 #include <stdint.h>
 
 #include "utf8_checker.h"
+#include "verif_hooks.h"
 
 const uint8_t UC_FINISH = 0xFF;
 const unsigned int FAST_ZONE1 = 0x80808080;
@@ -124,7 +125,8 @@ static bool is_byte_valid(struct cjet_utf8_checker *c, uint8_t byte)
 bool cjet_is_text_valid(struct cjet_utf8_checker *c, const char *text, size_t length, bool is_complete)
 {
 	bool ret = true;
-	for (size_t i = 0; i < length; i++) {
+	for (size_t i = 0; i < length; i++) VERIF_LOOP(VERIF_U8_LOOP(c, i, length, ret, 1)) {
+		VERIF_GHOST(VERIF_U8_GHOST_BYTE(*(text + i));)
 		ret = is_byte_valid(c, (uint8_t) *(text + i));
 		if (ret == false) return false;
 	}
@@ -137,7 +139,8 @@ bool cjet_is_text_valid(struct cjet_utf8_checker *c, const char *text, size_t le
 bool cjet_is_byte_sequence_valid(struct cjet_utf8_checker *c, const uint8_t *sequence, size_t length, bool is_complete)
 {
 	bool ret = true;
-	for (size_t i = 0; i < length; i++) {
+	for (size_t i = 0; i < length; i++) VERIF_LOOP(VERIF_U8_LOOP(c, i, length, ret, 1)) {
+		VERIF_GHOST(VERIF_U8_GHOST_BYTE(*(sequence + i));)
 		ret = is_byte_valid(c, *(sequence + i));
 		if (ret == false) return false;
 	}
@@ -154,7 +157,8 @@ bool cjet_is_word_sequence_valid(struct cjet_utf8_checker *c, const uint32_t *se
 {
 	bool ret = true;
 	uint32_t tmp = 0x0;
-	for (size_t i = 0; i < length; i++) {
+	for (size_t i = 0; i < length; i++) VERIF_LOOP(VERIF_U8_WORD_LOOP(c, i, length, ret, tmp, 4)) {
+		VERIF_GHOST(VERIF_U8_GHOST_ITEM(sequence + i, 4);)
 		tmp = *(sequence + i);
 		if (c->next_byte == 1) {
 			if (!(tmp & FAST_ZONE1)) continue;
@@ -184,7 +188,8 @@ bool cjet_is_word64_sequence_valid(struct cjet_utf8_checker *c, const uint64_t *
 {
 	bool ret = true;
 	uint64_t tmp = 0x0;
-	for (size_t i = 0; i < length; i++) {
+	for (size_t i = 0; i < length; i++) VERIF_LOOP(VERIF_U8_WORD_LOOP(c, i, length, ret, tmp, 8)) {
+		VERIF_GHOST(VERIF_U8_GHOST_ITEM(sequence + i, 8);)
 		tmp = *(sequence + i);
 		if (c->next_byte == 1) {
 			if (!(tmp & FAST_ZONE1_64)) continue;
